@@ -9,6 +9,32 @@ use crate::verif_common as vc;
 
 pub fn sizes() -> [u16; SIZE_TIERS - 1] { SIZES }
 
+/// Miniature hash column (plain build): 3 value tables {32, 64, multipart 64}, an index without file, no ref counts.
+pub fn mini_plain(ref_counted: bool) -> HashColumn {
+	let value = vec![
+		vt::mk(ValueTableId::new(0, 0), 32, false, ref_counted, 8),
+		vt::mk(ValueTableId::new(0, 1), 64, false, ref_counted, 8),
+		vt::mk(ValueTableId::new(0, 2), 64, true, ref_counted, 8),
+	];
+	HashColumn {
+		col: 0,
+		tables: RwLock::new(Tables { index: crate::index::verif_kani::table(16), value, ref_count: None }),
+		reindex: RwLock::new(Reindex { queue: VecDeque::new(), progress: AtomicU64::new(0) }),
+		ref_count_cache: None,
+		path: PathBuf::new(),
+		preimage: ref_counted,
+		uniform_keys: true,
+		collect_stats: false,
+		ref_counted,
+		append_only: false,
+		salt: [0u8; 32],
+		stats: crate::stats::verif_kani::tiny(),
+		compression: Compress::new(crate::compress::CompressionType::NoCompression, u32::MAX),
+		db_version: crate::options::CURRENT_VERSION,
+	}
+}
+pub fn mini_plain_column(ref_counted: bool) -> Column { Column::Hash(mini_plain(ref_counted)) }
+
 // =====================================================================================
 // C01.K1: hash_key is total on every admitted key
 // =====================================================================================
@@ -129,8 +155,10 @@ macro_rules! c10_n1 {
 		}
 	};
 }
-c10_n1!(c10_n1_unpack_a, [(0, 0), (1, 0), (1, 1), (5, 0), (8, 1), (9, 1), (10, 1), (16, 2), (17, 2), (18, 2)]);
-c10_n1!(c10_n1_unpack_b, [(25, 3), (24, 3), (26, 3), (33, 4), (40, 4), (40, 5), (40, 0), (3, 255), (40, 255), (40, 128)]);
+c10_n1!(c10_n1_unpack_a, [(0, 0), (1, 0), (1, 1), (8, 1), (9, 1)]);
+c10_n1!(c10_n1_unpack_b, [(10, 1), (16, 2), (17, 2), (18, 2), (5, 0)]);
+c10_n1!(c10_n1_unpack_c, [(25, 3), (24, 3), (26, 3), (33, 4), (40, 4)]);
+c10_n1!(c10_n1_unpack_d, [(40, 5), (40, 0), (3, 255), (40, 255), (40, 128)]);
 
 // =====================================================================================
 // C06.S1b: tier selection by Column::compress (codec replaced by a model returning any shorter/longer output)
